@@ -67,6 +67,9 @@ func (m *Machine) stub(fn *ssa.Function, args []Value) (Value, bool) {
 		}
 		return tp
 	}
+	if r, ok := m.intrinsic(name, fn, args); ok {
+		return r, true
+	}
 	switch {
 	case strings.Contains(name, "github.com/go-i2p/logger") || strings.Contains(name, "sirupsen/logrus"):
 		if results.Len() == 1 {
@@ -130,13 +133,6 @@ func (m *Machine) stub(fn *ssa.Function, args []Value) (Value, bool) {
 	case name == "crypto/ed25519.Verify":
 		m.called["ed25519.Verify"] = true
 		return m.sigValid("ed25519", m.cellsOf(args[0]), m.cellsOf(args[1]), m.cellsOf(args[2])), true
-	case name == "strings.Contains":
-		a, oka := args[0].(Str).concrete()
-		b, okb := args[1].(Str).concrete()
-		if oka && okb {
-			return m.tt.Bool(strings.Contains(a, b)), true
-		}
-		m.end("unsupported", "strings.Contains on symbolic string")
 	case name == "fmt.Sprintf":
 		return m.strConst("<sprintf>"), true
 	case name == "bytes.Equal":
